@@ -51,6 +51,30 @@ def setup():
     _ready = True
 
 
+_PRISTINE = {}
+
+
+def restore_dependency_globals():
+    """pulser-core 1.9.1 keeps module-level lists that one of its own methods edits in place
+    (HamiltonianData._get_eigenbasis appends "x" to channels.base_channel.EIGENSTATES[...] when a sequence without any
+    used basis is sampled with a leakage noise model). The edit survives in the process and changes what LATER, unrelated
+    sequences look like - a defect of the dependency, not of the code under test. Cases run in one worker process must
+    not inherit it from each other, so the pristine content is put back before every case."""
+    try:
+        from pulser.channels import base_channel as bc
+    except Exception:
+        return
+    if not _PRISTINE:
+        _PRISTINE.update({k: list(v) for k, v in bc.EIGENSTATES.items()})
+        # a pristine ground-rydberg / XY basis never contains the leakage state
+        for k in ("ground-rydberg", "XY"):
+            if k in _PRISTINE:
+                _PRISTINE[k] = [x for x in _PRISTINE[k] if x != "x"]
+    for k, v in _PRISTINE.items():
+        if bc.EIGENSTATES.get(k) != v:
+            bc.EIGENSTATES[k][:] = v
+
+
 def seed_all(seed: int):
     import random
     import numpy as np
